@@ -117,7 +117,7 @@ theorem removeEdges_kids_len (rr rt : Bool) : ∀ (ids : List Int) (t : T),
     cases t with
     | node d p k =>
       rw [contractT_kids] at ih
-      have := contractL_len rr rt id (k.length + (if true = true then 0 else 1)) k
+      have := contractL_len (rr || !true) rt id (k.length + (if true = true then 0 else 1)) k
       simp only [T.kids_node]
       omega
 
@@ -241,5 +241,22 @@ theorem depth_never_errs (t : T) : t.splits.any (depthErr t.tipNames.length) = f
         | nil => rfl
         | cons a r => rw [hk] at h1 h2; cases r <;> simp at h1 h2
       simp [T.splits, h0, splitsL] at hs
+
+end Gotree.C07
+
+namespace Gotree.C07
+open Gotree
+
+/-- `RemoveEdges` keeps "no single-child inner node" (for clients: C03) -/
+theorem removeEdges_noSingle (rr rt : Bool) : ∀ (ids : List Int) (t : T), t.noSingle = true →
+    (removeEdges rr rt ids t).noSingle = true
+  | [], t, h => by simpa [removeEdges] using h
+  | id :: ids, t, h => by
+    rw [removeEdges_cons]
+    apply removeEdges_noSingle rr rt ids
+    obtain ⟨d, p, k⟩ := t
+    simp only [T.noSingle, T.kids_node] at h
+    simp only [T.noSingle, contractT_kids]
+    exact (contractL_ns _ rt id _ k h).1
 
 end Gotree.C07
